@@ -512,7 +512,17 @@ func c20Run(env *core.Env, idx int) core.CaseResult {
 				cbs := make([]func(string, interface{}), ncb)
 				for i := 0; i < ncb; i++ {
 					i := i
-					cbs[i] = func(k string, v interface{}) { calls[i] = append(calls[i], call{k, c20Deref(k, v)}) }
+					cbs[i] = func(k string, v interface{}) {
+						calls[i] = append(calls[i], call{k, c20Deref(k, v)})
+						if i == 0 && (idx+pi)%3 == 0 {
+							// a callback may itself clear validations of an unrelated object; that must not disturb this report
+							other := spec.QueryParam("other").WithMinLength(3).WithPattern("x").WithMaxItems(2)
+							other.MultipleOf = new(float64)
+							other.ClearStringValidations(func(string, interface{}) {})
+							other.ClearNumberValidations(func(string, interface{}) {})
+							other.ClearArrayValidations(func(string, interface{}) {})
+						}
+					}
 				}
 				// expected removals
 				expect := map[string]interface{}{}
